@@ -81,8 +81,12 @@ func (bi *BodyInspector) Inspect(ctx context.Context, r *http.Request, profile *
 	}
 
 	// Restore the body for downstream handlers by creating a new reader that combines
-	// what we've already read with any remaining unread content
-	r.Body = io.NopCloser(io.MultiReader(bytes.NewReader(buffer.Bytes()), r.Body))
+	// what we've already read with any remaining unread content. The restored body must own
+	// its bytes: the pooled buffer goes back to the pool when we return and the next request
+	// to inspect a body would otherwise overwrite what this one is still going to forward
+	inspected := make([]byte, buffer.Len())
+	copy(inspected, buffer.Bytes())
+	r.Body = io.NopCloser(io.MultiReader(bytes.NewReader(inspected), r.Body))
 
 	modelName := bi.extractModelName(buffer.Bytes())
 	if modelName != "" {
